@@ -14,7 +14,8 @@ fn valid() -> Vec<&'static str> {
 }
 fn garbage() -> Vec<&'static str> {
     vec![")", "(a . )", "#z", "1x", "(a]", "\"\\q\"", "#\\bogus", "(a\n b\n  #z", "\n\n)", "a\n)", "#u8(300)", "#u8(a)", "(a . b c)", "\u{3bb}\n )", "\"\n\n\\q", "#xfg", "1e+", "(\n\"abc", "a\r\n)\r\n", "(a\r b\r c\r #z", "\"x\ry\rz\" )", "a\r\nb\r\nc\r\n(d\r\n",
-         "(\n  1e999)", "\n\n 3.5e+400", "(a\n 1e999 b)", "\n 99999999999999999999999999e999", "(\n  #e1.5x)", "\n\n  #xfz", "(\n\n   1+x)", "\n\n   1x", "\n\n  -1.5.6", "\n\n\n     -1e999", "(\n\n#u8(1\n 1e999))", "'\n\n  1e999", "\n\n   #\\bogusname", "\n\n     \"abc\\q\"", "\n\n    #:", "\n\n   ?\\^"]
+         "(\n  1e999)", "\n\n 3.5e+400", "(a\n 1e999 b)", "\n 99999999999999999999999999e999", "(\n  #e1.5x)", "\n\n  #xfz", "(\n\n   1+x)", "\n\n   1x", "\n\n  -1.5.6", "\n\n\n     -1e999", "(\n\n#u8(1\n 1e999))", "'\n\n  1e999", "\n\n   #\\bogusname", "\n\n     \"abc\\q\"", "\n\n    #:", "\n\n   ?\\^",
+         "#\\foobar\n", "(1 2\n 1e999\n)", "#\\x110000\n", "(a\n  .\n)", "\n #z\n", "(a\n  #\\bogus\n b)", "1e999\n", "x\n  1e999\n\n", "(\n\"a\\q\"\n)", "#u8(1\n 300\n)", "(a .\n)\n", "#\\spac\n\n"]
 }
 fn opts(i: usize) -> Options { if i == 0 { Options::default() } else { Options::elisp() } }
 
